@@ -42,6 +42,32 @@ def demo(wt, name):
     return p.returncode, (p.stdout + p.stderr)[-600:]
 
 
+def make_kit(wt, kit):
+    """Rust demo kit: a bin crate depending on the real sc62015_core sources of worktree `wt` (shim manifest, vendored crates)."""
+    os.makedirs(f"{kit}/core-shim", exist_ok=True)
+    os.makedirs(f"{kit}/demo/src", exist_ok=True)
+    os.makedirs(f"{kit}/demo/.cargo", exist_ok=True)
+    shim = (ROOT / "rust/core-shim/Cargo.toml").read_text().replace("/repo/sc62015/core/src/lib.rs", f"{wt}/sc62015/core/src/lib.rs")
+    pathlib.Path(f"{kit}/core-shim/Cargo.toml").write_text(shim)
+    for n in ("vendor", "zipshim"):
+        if not os.path.exists(f"{kit}/{n}"):
+            os.symlink(ROOT / "rust" / n, f"{kit}/{n}")
+    shutil.copy(ROOT / "rust/harness/.cargo/config.toml", f"{kit}/demo/.cargo/config.toml")
+    pathlib.Path(f"{kit}/demo/Cargo.toml").write_text(
+        '[package]\nname = "demo"\nversion = "0.1.0"\nedition = "2021"\n\n[[bin]]\nname = "demo"\npath = "src/main.rs"\n\n'
+        '[dependencies]\nsc62015-core = { path = "../core-shim" }\nserde = { version = "1.0", features = ["derive"] }\n'
+        'serde_json = "1.0"\n\n[profile.dev]\nopt-level = 1\noverflow-checks = true\ndebug-assertions = true\n')
+
+
+def rust_demo(kit, src_rs):
+    shutil.copy(src_rs, f"{kit}/demo/src/main.rs")
+    b = sh("cargo build --offline 2>&1 | tail -30", cwd=f"{kit}/demo", timeout=1800)
+    if not os.path.exists(f"{kit}/demo/target/debug/demo") or "error" in b.stdout and "could not compile" in b.stdout:
+        return 99, "BUILD FAILED: " + b.stdout[-500:]
+    p = sh("./target/debug/demo", cwd=f"{kit}/demo", timeout=1800)
+    return p.returncode, (p.stdout + p.stderr)[-600:]
+
+
 def main():
     ap = argparse.ArgumentParser()
     ap.add_argument("src")
@@ -67,10 +93,17 @@ def main():
         os.makedirs(f"{wt}/_out", exist_ok=True)
         shutil.copytree(src, f"{wt}/{rel}")
         has_demo = (src / a.demo).exists() and a.demo.endswith(".py")
+        rs_demo = (src / "demo.rs").exists() and not has_demo
+        kit = f"/tmp/seedwt/{a.sid}-kit"
+        if rs_demo:
+            make_kit(wt, kit)
         base_tail, base_failed = suite(wt)
         rec["suite_clean"] = base_tail
         if has_demo:
             rc, out = demo(wt, f"{rel}/{a.demo}")
+            rec["demo_clean"] = {"exit": rc, "tail": out[-200:]}
+        if rs_demo:
+            rc, out = rust_demo(kit, src / "demo.rs")
             rec["demo_clean"] = {"exit": rc, "tail": out[-200:]}
         r = sh(f"git apply --recount {rel}/patch.diff", cwd=wt)
         if r.returncode:
@@ -82,11 +115,16 @@ def main():
         if has_demo:
             rc, out = demo(wt, f"{rel}/{a.demo}")
             rec["demo_with_change"] = {"exit": rc, "tail": out[-200:]}
+        if rs_demo:
+            sh("rm -f target/debug/demo", cwd=f"{kit}/demo")
+            rc, out = rust_demo(kit, src / "demo.rs")
+            rec["demo_with_change"] = {"exit": rc, "tail": out[-200:]}
     finally:
         sh(f"git -C /repo worktree remove --force {wt}")
+        shutil.rmtree(f"/tmp/seedwt/{a.sid}-kit", ignore_errors=True)
     ok = rec.get("same_failing_set") and rec["suite_with_change"] == rec["suite_clean"]
-    if has_demo:
-        ok = ok and rec["demo_clean"]["exit"] == 0 and rec["demo_with_change"]["exit"] != 0
+    if has_demo or rs_demo:
+        ok = ok and rec["demo_clean"]["exit"] == 0 and rec["demo_with_change"]["exit"] not in (0, 99)
     print(json.dumps(rec, indent=1))
     if not ok:
         print("NOT CONFIRMED")
@@ -97,11 +135,13 @@ def main():
         if f.is_file() and f.stat().st_size < 200_000 and not f.name.startswith("suite_"):
             shutil.copy(f, dst / f.name)
     meta = {"id": a.sid, "property": a.prop, "summary": a.summary, "needs": a.needs,
-            "checks": (a.checks.split(",") if a.checks else [a.prop.lower()]), "touches_rust": bool(a.rust),
+            "checks": (a.checks.split(",") if a.checks else [a.prop.lower()]), "touches_rust": bool(a.rust) or rs_demo,
             "source": "fresh sub-agent given only the property text and a scratch worktree",
             "confirmed_here": rec,
             "ran": [SUITE + "  (clean and with the change, same numbers and failing set)",
-                    f"FORCE_BINJA_MOCK=1 /venv/bin/python {a.demo}  (exit 0 clean, non-zero with the change)" if has_demo else "demo is descriptive (Rust)"]}
+                    f"FORCE_BINJA_MOCK=1 /venv/bin/python {a.demo}  (exit 0 clean, non-zero with the change)" if has_demo else
+                    ("demo.rs built against the worktree's crate through a shim manifest (exit 0 clean, non-zero with the change)" if rs_demo
+                     else "demo is descriptive")]}
     (dst / "meta.json").write_text(json.dumps(meta, indent=1) + "\n")
     print("CONFIRMED ->", dst)
     return 0
